@@ -102,6 +102,7 @@ def document(cls, units, variant, numdepth=3):
             if i == min(1, k - 1):
                 s += ' \\begin{enumerate}\\item x\\item\\label{li1} y\\end{enumerate} \\ref{le0}\\pageref{lb0}\\index{alpha}'
             if i == k - 1:
+                s += '\n\n\\index{gamma}\\index{alpha}\n\n'       # index entries that form a paragraph of their own
                 s += ' z\\footnote{fqbz} v\\footnote{fqsz}\\index{\\_ua}\\index{\\_ub} \\begin{equation}c\\label{le9}\\end{equation}\\ref{le9}'
         parts.append(s + '\n\n')
     tail = ''
